@@ -161,6 +161,22 @@ func solvePart(u *Unit, ob *Obligation, idx int, workDir string, tier string, se
 			res.Verdict, res.Backend, res.Output = v, sp.Name, out
 		}
 	}
+	if res.Verdict != "sat" && res.Verdict != "unsat" {
+		// no solver answered within its budget (a loaded machine, most likely): one patient retry per solver
+		// before the obligation is reported as undecided
+		for _, sp := range solvers {
+			v, out, ms := runSolver(sp, file, 180, seed)
+			res.Ms += ms
+			res.All[sp.Name+"(retry)"] = v
+			if v == "sat" || v == "unsat" {
+				res.Verdict, res.Backend, res.Output = v, sp.Name, out
+				if v == "sat" {
+					res.Model = out
+				}
+				break
+			}
+		}
+	}
 	res.Disagree = disagreement(res)
 	return res
 }
